@@ -1,13 +1,117 @@
 """C10 — equality, hashing, ordering and read-only identity."""
 import json
+import re
 from common import prove, ensure_model_runner, run_impl, run_model, Err
 from flow import conclude
 import gen_structs as gs
 import gen_pil
 
 
+NAME_TAILS = ("1", "2", "10", "1a", "1b", "01", "2*", "10*", "1*", "9", "11", "100", "2A", "1_", "", "*", "1-2", "1.5")
+
+
+def name_families(rng):
+    """lists of names that share a prefix and differ in an index / suffix (automatic names, split sub-domains, complements)"""
+    fams = [[p + t for t in NAME_TAILS if p + t not in ("", "*")] for p in ("d", "", "t_")]
+    # a generated family: random prefix, random indices of 1-3 digits, some with a letter suffix or a complement marker
+    p = "".join(rng.choice("abXY_") for _ in range(rng.randrange(1, 3)))
+    idx = [str(rng.randrange(10 ** rng.randrange(1, 4))) for _ in range(8)]
+    fams.append(sorted({p + i + rng.choice(["", "", "*", "a", "b"]) for i in idx} | {p + i for i in idx[:3]}))
+    return fams
+
+
+def stem(name):
+    return re.match(r"[^0-9]*", name).group(0).rstrip("*")
+
+
+def family_of(rng, specs, a):
+    """members of the domain population whose name is related to that of `a` (same leading non-digit part)"""
+    return [x for x in specs if stem(x[0]) == stem(a[0])]
+
+
+def order_key(kind, key):
+    return key[0] if kind == "domain" else key
+
+
+def check_order(kind, r):
+    """direct statement on several objects alive together: <= is total and transitive, < is its strict part, equal objects
+    are equivalent, and sorted()/min()/max() of every arrangement give the ascending order of the canonical forms"""
+    keys, first, rel, arr_perm = r[0], r[1], r[2], r[3]
+    n = len(keys)
+    EQ, NE, LT, LE, GT, GE = range(6)
+    for i in range(n):
+        for j in range(n):
+            o, b = rel[i][j], rel[j][i]
+            if not (o[LE] or b[LE]):
+                return f"neither x <= y nor y <= x for x={keys[i]} y={keys[j]}"
+            if o[LT] != (o[LE] and not b[LE]) or o[GT] != b[LT] or o[GE] != b[LE] or o[NE] == o[EQ] or o[EQ] != b[EQ]:
+                return f"operators incoherent on x={keys[i]} y={keys[j]}: {o} / {b}"
+            if o[EQ] and not (o[LE] and b[LE]):
+                return f"equal objects are not equivalent in the order: {keys[i]} {keys[j]}"
+            if o[EQ] != (keys[i] == keys[j]):
+                return f"== is {o[EQ]} on canonical forms {keys[i]} {keys[j]}"
+            for k in range(n):
+                if o[LE] and rel[j][k][LE] and not rel[i][k][LE]:
+                    return f"not transitive: {keys[i]} <= {keys[j]} <= {keys[k]} but not {keys[i]} <= {keys[k]}"
+                if o[LT] and rel[j][k][LT] and not rel[i][k][LT]:
+                    return f"not transitive: {keys[i]} < {keys[j]} < {keys[k]} but not {keys[i]} < {keys[k]}"
+    return None
+
+
+def check_sorted(kind, r, perms):
+    keys, first, rel, arr_perm = r[0], r[1], r[2], r[3]
+    seen = {}
+    for p, (srt, mn, mx, rev) in zip(perms, arr_perm):
+        oks = [order_key(kind, keys[i]) for i in p]
+        got = [order_key(kind, keys[i]) for i in srt]
+        if got != sorted(oks):
+            return f"sorted() of the arrangement {[keys[i] for i in p]} gives {[keys[i] for i in srt]}"
+        if [order_key(kind, keys[i]) for i in rev] != sorted(oks, reverse=True):
+            return f"sorted(reverse=True) of the arrangement {[keys[i] for i in p]} gives {[keys[i] for i in rev]}"
+        if order_key(kind, keys[mn]) != min(oks) or order_key(kind, keys[mx]) != max(oks):
+            return f"min()/max() of the arrangement {[keys[i] for i in p]} give {keys[mn]} / {keys[mx]}"
+        seen.setdefault(json.dumps(sorted(first[i] for i in p)), set()).add(json.dumps(got))
+    if any(len(v) > 1 for v in seen.values()):
+        return "sorted() depends on the order of its input"
+    return None
+
+
+def order_cases(rng, pop, quick):
+    """tuples of 3-6 objects of one kind and arrangements of them"""
+    cases = []
+    per_kind = {"domain": 60, "complex": 25, "macrostate": 15, "reaction_c": 15, "reaction_m": 10}
+    for kind, specs in pop.items():
+        for _ in range(per_kind[kind] * (1 if quick else 10)):
+            n = rng.randrange(3, 7 if kind == "domain" else 5)
+            a = rng.choice(specs)
+            pool = specs
+            if kind == "domain" and rng.random() < 0.75:
+                pool = family_of(rng, specs, a)
+            objs = [a] + [rng.choice(pool) for _ in range(n - 1)]
+            if rng.random() < 0.3:
+                objs[-1] = list(objs[0])                  # the same object twice
+            if kind == "complex":
+                # macrostate members / reaction members live in class 0; mixed classes of complexes are compared in pairs
+                objs = [[o[0], o[1], objs[0][2]] for o in objs]
+            perms = [list(range(n)), list(range(n))[::-1]]
+            for _ in range(4):
+                q = list(range(n)); rng.shuffle(q); perms.append(q)
+            cases.append(("c10_order", ["order", kind, objs, perms]))
+    return cases
+
+
+def sub_triples(case):
+    _, kind, objs, perms = case
+    from itertools import combinations, permutations
+    return [("c10_order", ["order", kind, [objs[i] for i in c], [list(q) for q in permutations(range(len(c)))]])
+            for m in (2, 3) for c in combinations(range(len(objs)), m)]
+
+
 def population(rng, quick):
     doms = [[n, L, k] for n in ("a", "a*", "b", "aa", "A", "b-1_x") for L in (5, 7, 9, 10) for k in (0, 1, 2, 3, 4)]
+    # families of related names (one prefix; indices with different numbers of digits, leading zeros, sub-domain suffixes,
+    # complements, case): the order is the order of the name strings whatever the names look like
+    doms += [[n, L, k] for fam in name_families(rng) for n in fam for L, k in ((5, 0), (7, 1), (10, 3))]
     structs = [s for s in gs.all_wf(4 if quick else 5)]
     cplx = []
     for s in structs:
@@ -46,6 +150,8 @@ def run(ctx):
             for _ in range(n_pairs):
                 a = rng.choice(specs)
                 b = rng.choice(specs) if rng.random() < 0.7 else list(a[:-1]) + [rng.randrange(5 if kind == "domain" else 2)]
+                if kind == "domain" and rng.random() < 0.4:
+                    b = rng.choice(family_of(rng, specs, a))          # a related name (same prefix, another index / suffix)
                 if kind == "complex" and rng.random() < 0.25:
                     # the same sequence under another structure (same strand breaks): the order looks at both components
                     shape = [i for i, x in enumerate(a[1]) if x == "+"]
@@ -108,6 +214,32 @@ def run(ctx):
         ctx.cov["correspondence"]["compare"] = {"cases": len(reqs), "compared": len(idx), "disagreements": len(diffs),
                                                 "by_kind": kinds, "refused_constructions": len(reqs) - len(idx)}
         ctx.add_eval(len(reqs), len(distinct), samples=[{"req": reqs[0][1], "impl": impl[0]}])
+        # several objects alive together: the relation on all of them and sorted()/min()/max() of arrangements
+        oc = order_cases(rng, pop, quick)
+        refused, bad = 0, []
+        for rq, r in zip(oc, run_impl(oc)):
+            if isinstance(r, Err):
+                if r.kind in ("SingletonError", "ObjectInitError"):
+                    refused += 1
+                    continue
+                bad.append((rq, f"relating several objects raised {r.kind}"))
+                continue
+            what = check_order(rq[1][1], r) or check_sorted(rq[1][1], r, rq[1][3])
+            if what:
+                bad.append((rq, what))
+        for rq, what in bad[:5]:
+            # the smallest part of the tuple (a pair or a triple, all arrangements) that fails on its own
+            subs = sub_triples(rq[1])
+            for sq, sr in zip(subs, run_impl(subs)):
+                w = (f"raised {sr.kind}" if sr.kind not in ("SingletonError", "ObjectInitError") else None) if isinstance(sr, Err) \
+                    else (check_order(sq[1][1], sr) or check_sorted(sq[1][1], sr, sq[1][3]))
+                if w:
+                    rq, what = sq, w
+                    break
+            found.append({"key": {"kind": rq[1][1], "objects": rq[1][2]}, "input": rq[1], "what": what,
+                          "snippet": f"# harness op c10_order {rq[1]!r} (harness/impl/compare.py)"})
+        ctx.cov["correspondence"]["order"] = {"cases": len(oc), "refused_constructions": refused, "failing": len(bad)}
+        ctx.add_eval(len(oc), len(oc) - refused)
         # read-only identity and copies (runtime behaviour: observed)
         ro = [("c10_readonly", [kind, rng.choice(specs)]) for kind, specs in pop.items() for _ in range(10 if quick else 100)]
         for rq, r in zip(ro, run_impl(ro)):
@@ -127,7 +259,10 @@ def run(ctx):
     ctx.cov["rule"] = ("random pairs from generated populations per kind (domains over 3 registries, complexes incl. pairs "
                        "differing only in structure, macrostates, reactions differing only in type, over complexes and over "
                        "macrostates); the implementation reports canonical forms and operator results, the model computes the "
-                       "operators from the canonical forms; non-trivial = distinct key pairs")
+                       "operators from the canonical forms; non-trivial = distinct key pairs; domain names include families with one prefix "
+                       "(indices of 1-3 digits, leading zeros, sub-domain suffixes, complements) and pairs within a family; "
+                       "tuples of 3-6 objects alive together: totality, transitivity, coherence of the six operators and "
+                       "sorted()/min()/max() of several arrangements (direct statement, no model)")
     ctx.cov["partial"] = ["views are copies / attribute assignment raises: runtime behaviour, observed on every run, not a theorem"]
     if found and res["ok"] and not diffs:
         for f in found[:10]:
@@ -140,9 +275,15 @@ def replay(data):
     inp = data.get("input")
     if not inp:
         print(json.dumps(data.get("broken_links"))[:2000]); return 1
-    op = "c10_pair" if len(inp) == 3 else "c10_readonly"
+    op = "c10_order" if len(inp) == 4 else "c10_pair" if len(inp) == 3 else "c10_readonly"
     r = run_impl([(op, inp)])[0]
     print(r)
+    if op == "c10_order":
+        if isinstance(r, Err):
+            return 1
+        what = check_order(inp[1], r) or check_sorted(inp[1], r, inp[3])
+        print(what)
+        return 1 if what else 0
     if op == "c10_pair" and not isinstance(r, Err):
         return 0 if r[2] == expected_ops(r[0], r[1], inp[0]) else 1
     return 1
